@@ -379,7 +379,7 @@ theorem invalidateLocation_run (cfg : Cfg) (req : Req) (respH : Header) (hdr : S
           obtain ⟨a1, a2, d1, ha, hall1, hrun1⟩ := delMany_run _ _ _ _ _ h1
           obtain ⟨b1, b2, d2, hb, hall2, hrun2⟩ := delOnce_run _ _ _ _ _ hrun1
           subst ha; subst hb
-          refine ⟨Step.getRefs g.key a :: (a1 ++ b1), b2, d2, by simp [List.append_assoc], ?_, hrun2⟩
+          refine ⟨Step.getRefs (resolveLoc req g).key a :: (a1 ++ b1), b2, d2, by simp [List.append_assoc], ?_, hrun2⟩
           · simp [List.all_append, hall1, hall2, Step.isInval]
       · exact ⟨[], tr, _, rfl, rfl, h⟩
 
